@@ -313,6 +313,7 @@ func Load(dir, goos, goarch string) (*Program, error) {
 		}
 	}
 	computeFieldAliases(P)
+	computeParamPerms(P)
 	return P, nil
 }
 
